@@ -139,13 +139,22 @@ func c12Reads(dynamic bool) {
 	}
 	f, hasTeam, team, hasName, name := c12Filter("f")
 	var err error
+	// the caller may add its own WHERE text; a top-level OR in it must not widen
+	// the statement beyond the filter (and the limit)
+	var opts *SelectOptions
+	switch nondet.Choice("where", 3) {
+	case 1:
+		opts = &SelectOptions{Where: "name = ? OR name = ?", Values: []interface{}{"ann", "cy"}}
+	case 2:
+		opts = &SelectOptions{Where: "id = ?", Values: []interface{}{nondet.Int64("w.id")}}
+	}
 	switch nondet.Choice("op", 3) {
 	case 0:
 		var out []*zUser
-		err = db.Query(ctx, &out, f, nil)
+		err = db.Query(ctx, &out, f, opts)
 	case 1:
 		var out *zUser
-		err = db.QueryRow(ctx, &out, f, nil)
+		err = db.QueryRow(ctx, &out, f, opts)
 		if err != nil && strings.Contains(err.Error(), "no rows") {
 			err = nil
 		}
